@@ -585,6 +585,10 @@ def c09():
             q["id"] = "%s.%d" % (p["id"], j)
             parts.append(q)
     res = [("faults", core.campaign("faults", parts, wd, spec="TraceFault", mode="faults", n_shards=min(len(parts), 14), jvms=6))]
+    # the same enumeration with the device behind the library's std::io adapter (the injected error travels through StdIoWrapper and the
+    # std::io::Error conversions)
+    std = [dict(q, id=q["id"] + "-std") for q in parts if q["id"].startswith(("flt-K1b.", "flt-K5.") if core.tier() == "quick" else "flt-")]
+    res.append(("faults-stdio", core.campaign("faults-stdio", std, wd, feat="refstd", spec="TraceFault", mode="faults", n_shards=min(len(std), 14), jvms=6)))
     core.finish("C09", "fault_enumeration", res, mc_device(wd), t0,
                 "for every operation of representative and random histories on FAT12/16/32, every position k of its device-call sequence is failed once "
                 "(exhaustive single-fault enumeration, device-call budget for non-termination); TLC judges each outcome with TraceFault; distinct = "
